@@ -30,6 +30,14 @@ claim("C10", "exploration",
       "Trusted: the reference table in incrate/c10_qos.rs (written from DDS 1.4 2.2.3 and the property text); values outside the pools (other durations) only by sampling.",
       "DESIGN.md section 2, C10")
 
+claim("C14", "exploration",
+      "property-based testing: messages built through the implementation's constructors from generated arguments; round trip + independent framing walker/decoder + canonical idempotence; reference-model check of number sets; raw-bytes parse/re-serialise",
+      "Seeded generation of Message values through MessageBuilder / create_submessage with arguments from boundary pools (payload residues mod 4, SN sets wider than 256, SNs near 2^31/2^32/i64::MAX, both endianness flags per submessage, foreign headers); each is serialised, "
+      "walked by an independent framing walker using only octetsToNextHeader, decoded by an independent RTPS codec and compared with the constructor arguments, parsed by Message::read_from_buffer and compared modulo RTPS padding, and re-serialised (fixpoint). "
+      "Number sets are compared with a reference BTreeSet intersected with the 256 window. A third scenario feeds mutated/raw bytes: whatever parses must re-serialise to a canonical form that parses back equal.",
+      "Trusted: incrate/wire.rs (independent codec written from RTPS 2.5 ch. 9). INFO_REPLY and the security submessages are outside the constructed domain (the implementation never emits INFO_REPLY; secure submessages are covered under C16). DATA payloads above 60000 bytes are not generated (the writer fragments them).",
+      "DESIGN.md section 2, C14")
+
 NOT_YET = {
 }
 
